@@ -1,9 +1,11 @@
 package props
 
 import (
+	"bufio"
 	"bytes"
 	"encoding/json"
 	"fmt"
+	"io"
 	"os"
 	"os/exec"
 	"path/filepath"
@@ -505,8 +507,30 @@ func c10RacePass(c *Case, tier string) []Violation {
 	}
 	cmd := exec.Command(bin, "race", tier)
 	cmd.Env = append(os.Environ(), "GORACE=halt_on_error=1 exitcode=66", "GOMAXPROCS=8")
-	out, err := cmd.CombinedOutput()
-	text := string(out)
+	// the child prints one "progress" line per round; every line keeps the hang watchdog quiet, silence of the child for
+	// HangSeconds is a concurrent request that is never answered
+	var buf bytes.Buffer
+	pr, pw := io.Pipe()
+	cmd.Stdout, cmd.Stderr = pw, pw
+	done := make(chan struct{})
+	go func() {
+		sc := bufio.NewScanner(pr)
+		sc.Buffer(make([]byte, 1<<20), 1<<26)
+		for sc.Scan() {
+			if cur != nil {
+				cur.Tick()
+			}
+			if !strings.HasPrefix(sc.Text(), "progress ") {
+				buf.WriteString(sc.Text())
+				buf.WriteByte('\n')
+			}
+		}
+		close(done)
+	}()
+	err := cmd.Run()
+	pw.Close()
+	<-done
+	text := buf.String()
 	if cur != nil {
 		for _, l := range strings.Split(text, "\n") {
 			if strings.HasPrefix(l, "race-pass:") {
@@ -561,10 +585,12 @@ func RaceMain(tier string) int {
 		close(gate)
 		wg.Wait()
 	}
+	fmt.Println("progress cold-start")
 	soloOut := make([][]byte, len(corpus))
 	for i, r := range corpus {
 		soloOut[i] = r.run()
 	}
+	fmt.Println("progress solo")
 	coldMismatch := 0
 	for i := range corpus {
 		if !bytes.Equal(coldOuts[i], soloOut[i]) {
@@ -597,6 +623,7 @@ func RaceMain(tier string) int {
 			}
 			close(gate)
 			wg.Wait()
+			fmt.Println("progress round", round, start)
 			for k := range outs {
 				runs++
 				if !bytes.Equal(outs[k], soloOut[idx[k]]) {
@@ -625,6 +652,7 @@ func RaceMain(tier string) int {
 			}
 			close(gate)
 			wg.Wait()
+			fmt.Println("progress heavy", hv.Name, round)
 			for k := range outs {
 				runs++
 				if !bytes.Equal(outs[k], solo) {
